@@ -1401,7 +1401,7 @@ LEGS = [
              "ACK/NAK, random; non-trivial = the exchange reached the "
              "driver's CRC decision."),
     Leg("resend", run=run_resend, gen=lambda tier: gen_resend(), quick=2400,
-        thorough=40000, shards_quick=8, shards_thorough=16, nt_floor=0.5,
+        thorough=40000, shards_quick=8, shards_thorough=16, nt_floor=0.35,
         rule="histories of 2-4 exchanges on one driver + simulated chip + "
              "tag with a pool of 1-2 command objects (bytearray or bytes) "
              "that are handed to the driver again and again. 3 of 4 cases: "
